@@ -208,6 +208,12 @@ Theorem C07_local : forall (mass : nat -> R) (pos : RF) (c : RC) (F G : RF),
 Proof. exact thm_local. Qed.
 Print Assumptions C07_local.
 
+(* sharper: only the atoms whose forces are read matter; with oneSiteTotalForce that is the first group only *)
+Theorem C07_local_measured : forall (mass : nat -> R) (pos : RF) (c : RC) (F G : RF),
+  (forall a, In a (cvc_measured c) -> F a = G a) -> cvc_ft Rops PI mass pos c F = cvc_ft Rops PI mass pos c G.
+Proof. exact thm_local_measured. Qed.
+Print Assumptions C07_local_measured.
+
 Theorem C07_local_variable : forall (mass : nat -> R) (pos : RF) (cv : colvar) (F G : RF),
   (forall a, In a (cv_atoms cv) -> F a = G a) -> cv_proj Rops PI mass pos cv F = cv_proj Rops PI mass pos cv G.
 Proof. exact thm_local_variable. Qed.
